@@ -108,6 +108,19 @@ var ruleNarrow = &Rule{
 			ord := 0
 			for _, b := range fn.Blocks {
 				for _, ins := range b.Instrs {
+					// a rune masked down to a byte or a 16-bit unit
+					if bo, ok := ins.(*ssa.BinOp); ok && bo.Op == token.AND {
+						if bt, ok := bo.Type().Underlying().(*types.Basic); ok && bt.Kind() == types.Int32 {
+							for _, side := range []ssa.Value{bo.X, bo.Y} {
+								if k, isK := constInt(side); isK && (k == 0x7f || k == 0xff || k == 0xffff) {
+									n++
+									ord++
+									out.viol(fmt.Sprintf("%s: character narrowed to a byte #%d", fnName(fn), ord), p.pos(bo.Pos()), fnName(fn), fmt.Sprintf("a rune is masked with %#x: the bits of a code point above that are dropped, so `\\u{1F600}` or `\\u{e0001}` denotes another character", k))
+								}
+							}
+						}
+						continue
+					}
 					cv, ok := ins.(*ssa.Convert)
 					if !ok {
 						continue
@@ -116,11 +129,14 @@ var ruleNarrow = &Rule{
 						nrune++
 					}
 					dt, ok := cv.Type().Underlying().(*types.Basic)
-					if !ok || (dt.Kind() != types.Uint8 && dt.Kind() != types.Int8) {
+					if !ok || (dt.Kind() != types.Uint8 && dt.Kind() != types.Int8 && dt.Kind() != types.Uint16 && dt.Kind() != types.Int16) {
 						continue
 					}
 					st, ok := cv.X.Type().Underlying().(*types.Basic)
 					if !ok || st.Info()&types.IsInteger == 0 || st.Kind() == types.Uint8 || st.Kind() == types.Int8 {
+						continue
+					}
+					if (dt.Kind() == types.Uint16 || dt.Kind() == types.Int16) && (st.Kind() == types.Uint16 || st.Kind() == types.Int16) {
 						continue
 					}
 					if _, isC := cv.X.(*ssa.Const); isC {
@@ -137,12 +153,16 @@ var ruleNarrow = &Rule{
 						if !ok {
 							continue
 						}
+						lim := int64(256)
+						if dt.Kind() == types.Uint16 || dt.Kind() == types.Int16 {
+							lim = 65536
+						}
 						switch {
-						case c.Op == token.LSS && f.Truth && k <= 256,
-							c.Op == token.LEQ && f.Truth && k <= 255,
-							c.Op == token.GEQ && !f.Truth && k <= 256,
-							c.Op == token.GTR && !f.Truth && k <= 255,
-							c.Op == token.EQL && f.Truth && k >= 0 && k <= 255:
+						case c.Op == token.LSS && f.Truth && k <= lim,
+							c.Op == token.LEQ && f.Truth && k <= lim-1,
+							c.Op == token.GEQ && !f.Truth && k <= lim,
+							c.Op == token.GTR && !f.Truth && k <= lim-1,
+							c.Op == token.EQL && f.Truth && k >= 0 && k <= lim-1:
 							bounded = true
 						}
 					}
